@@ -16,7 +16,7 @@ from ..main import Report
 
 PROP = 'C05'
 PARTS = ('crash',)
-QUICK = (42, 40)
+QUICK = (52, 40)
 THOROUGH = (600, 400)
 
 
